@@ -95,7 +95,7 @@ def check_value(p, v, cfg_name, col):
         col.nt(p.key + vsrc + cfg_name)
         if len(vsrc) < 200:
             col.sample({"T": mat.root_expr, "v": vsrc, "cfg": cfg_name})
-    amb = ambiguity(spec, v, mat) if U.has_kind(spec, "union", "optional") else None
+    amb = None  # decided after the first library calls: the rule builds routines for member types (cache warmth)
 
     def case():
         c = p.case(value=vsrc, cfg=cfg_name)
@@ -110,6 +110,7 @@ def check_value(p, v, cfg_name, col):
     k1, b1 = tl.call(cdc.encode, v)
     k2, b2 = tl.call(typelib.encode, v, t=T, **({"encoder": enc} if "encoder" in cfg else {}))
     k3, b3 = tl.call(lambda: enc(tl.marshal(v, t=T)))
+    amb = ambiguity(spec, v, mat) if U.has_kind(spec, "union", "optional") else None
     if k1 == "exc" and amb:
         col.violation("union-fixpoint", case(), f"encode raised {tl.exc_name(b1)} for a value captured by an earlier union member", bucket="encode-raises")
         return
